@@ -14,7 +14,13 @@ Streams
             Content-Length and chunked bodies, application responses. Oracle: the application saw exactly
             method / decoded path / query / headers / body, the client received exactly status / headers /
             body; chunked framing only on HTTP/1.1 without Content-Length and never for HEAD, 1xx, 204, 304.
-            The response body framing is also predicted by Model.Chunked (chunkedDecision + bodyWire).
+            Every byte the writer put on the wire is also predicted by Model.DevServer.runWsgi (status line,
+            Server/Date values as opaque inputs, headers, Transfer-Encoding, Connection: close, framed body).
+  makeenv   make_environ as a whole on the request line / headers as http.server parsed them (urlsplit incl.
+            absolute-form, the '//' repair, percent-decoding + latin-1 dance, QUERY_STRING, HTTP_HOST fallback,
+            wsgi.input_terminated) vs Model.DevServer.makeEnviron; oracle: PATH_INFO is the percent-decoded path
+            sent, the query verbatim (known finding F19b for '//' prefixes).
+  hspath    handler.path for a request target vs Model.DevServer.httpServerPath (the one documented stdlib step)
   environ   make_environ's header folding (underscore names dropped, repeats comma-joined, CONTENT_TYPE /
             CONTENT_LENGTH un-prefixed, line folds removed) on the headers as http.server parsed them vs
             Model.Chunked.foldHeaders.
@@ -372,7 +378,7 @@ def build_request(case) -> bytes:
         lines.append(f"Content-Length: {len(body)}")
         payload = body
     elif case["framing"] == "chunked":
-        lines.append("Transfer-Encoding: chunked")
+        lines.append("Transfer-Encoding: " + case.get("te", "chunked"))  # transfer-coding names are case-insensitive
         chunks, off = [], 0
         for n, t, up in case["chunks"]:
             chunks.append((body[off : off + n], t, up))
@@ -450,6 +456,7 @@ def gen_server_case(rng):
         "body": hx(body),
         "chunks": chunks,
         "final_term": rng.choice("cl"),
+        "te": rng.choice(["chunked", "chunked", "chunked", "Chunked", "CHUNKED", "chunked "]),
         "reads": [rng.choice([1, 2, 3, 16, 17, 100, 4096]) for _ in range(rng.choice([0, 0, 1, 3, 8]))],
         "protocol": rng.choice(["HTTP/1.1", "HTTP/1.1", "HTTP/1.0"]),
         "resp": {
@@ -509,13 +516,23 @@ class ServerStream(Stream):
 
     def real(self, case):
         seen, status_line, headers, body, ok, raw = self._observe(case)
-        te = [v.lower() for k, v in headers if k.lower() == "transfer-encoding"]
-        return b01("chunked" in te) + "|" + hx(body)
+        return hx(raw)
 
     def model_line(self, case):
+        # everything the writer put on the wire; the values of the Server / Date headers that
+        # http.server's send_response adds are opaque inputs taken from the real answer
+        seen, status_line, headers, body, ok, raw = self._observe(case)
+        if not ok:
+            return None
         r = case["resp"]
-        code = int(r["status"].split()[0])
-        return line("resp.frame", b01(case["protocol"] >= "HTTP/1.1"), b01(r["cl"]), b01(case["method"] == "HEAD"), code, ",".join(r["pieces"]) or "[]")
+        pieces = [unhx(p) for p in r["pieces"]]
+        app_headers = [tuple(h) for h in r["headers"]]
+        if r["cl"]:
+            app_headers.append(("Content-Length", str(sum(len(p) for p in pieces))))
+        server_headers = [(k, v) for k, v in headers[:2] if k in ("Server", "Date")]
+        pl = lambda hl: ",".join(hs(k) + ":" + hs(v) for k, v in hl) or "[]"  # noqa: E731
+        return line("resp.wire", hs(case["protocol"]), hs(r["status"]), pl(server_headers), pl(app_headers), b01(case["method"] == "HEAD"),
+                    ",".join(r["pieces"][: r["nwrite"]]) or "[]", ",".join(r["pieces"][r["nwrite"] :]) or "[]")
 
     def oracle(self, case, real_out):
         if real_out.startswith("EXC"):
@@ -545,7 +562,7 @@ class ServerStream(Stream):
         if case["framing"] == "cl":
             sent.append(("Content-Length", str(len(body))))
         elif case["framing"] == "chunked":
-            sent.append(("Transfer-Encoding", "chunked"))
+            sent.append(("Transfer-Encoding", case.get("te", "chunked")))
         for k, v in sent:
             if "_" in k:
                 continue
@@ -701,18 +718,173 @@ class EnvironStream(Stream):
         return f"n={min(len(case['headers']), 4)}" + ("/underscore" if any("_" in k for k, _ in case["headers"]) else "")
 
 
+TARGET_SEGS = SEGMENTS + ["%zz", "%4", "%", "%C3", "%FF%FE", "a:b", "x%3Fy", "%23", "..", "."]
+
+
+def gen_target(rng):
+    segs = [rng.choice(TARGET_SEGS) for _ in range(rng.randrange(0, 4))]
+    path = "/" + "/".join(segs)
+    r = rng.random()
+    if r < 0.1:
+        path = "/" + path
+    elif r < 0.16:
+        path = "///" + path
+    elif r < 0.3:
+        path = rng.choice(["http://abs.example", "http://abs.example:8080", "https://abs.example", "HTTP://Abs.Example", "x+y.z://n", "//netloc.example", "http://u:p@h"]) + path
+    elif r < 0.33:
+        return rng.choice(["*", "abs.example:443", "a:b", "/", "/?", "/??", "/a?b#c", "/#frag", "http:/one-slash", "http:no-slash", ":x", "1a://n/p"])
+    q = rng.choice(QUERIES + ["a#b", "?x", "%zz"])
+    return path + ("?" + q if q else "")
+
+
+class MakeEnvironStream(Stream):
+    """make_environ as a whole (method, PATH_INFO, QUERY_STRING, SERVER_PROTOCOL, REQUEST_URI, headers,
+    HTTP_HOST fallback, wsgi.input_terminated) vs Model.DevServer.makeEnviron; the model's input is what
+    http.server parsed (handler.command / path / request_version / headers.items())"""
+
+    name = "makeenv"
+    corpus = [
+        {"method": "GET", "target": t, "version": "HTTP/1.1", "headers": hdrs}
+        for t in ["/", "/a%20b/%C3%A9?q=%20", "//double/slash?x=1", "http://abs.example:8080//p/%2F?x=1", "/a?b?c", "/a#frag", "*", "/%zz%4", "/%FF", "///x", "abs.example:443", "/a;p=1?x=y#z"]
+        for hdrs in ([], [["Transfer-Encoding", "chunked"]], [["Transfer-Encoding", " Chunked "], ["Host", "h.example"]], [["Transfer-Encoding", "gzip, chunked"]])
+    ]
+
+    def cases(self, rng, tier):
+        n = 0
+        while tier != "quick" or n < 1200:
+            n += 1
+            hdrs = [[rng.choice(HDR_NAMES + ["Transfer-Encoding", "transfer-encoding", "Transfer_Encoding"]), rng.choice(HDR_VALUES + ["chunked", "Chunked", " chunked ", "gzip"])] for _ in range(rng.randrange(0, 5))]
+            yield {"method": rng.choice(["GET", "POST", "HEAD", "PUT", "X-CUSTOM"]), "target": gen_target(rng), "version": rng.choice(["HTTP/1.1", "HTTP/1.0"]), "headers": hdrs}
+
+    def _observe(self, case):
+        import json
+
+        key = json.dumps(case, sort_keys=True)
+        memo = self.__dict__.setdefault("_memo", {})
+        if key in memo:
+            return memo[key]
+        g = gen_mod()
+        seen = {}
+
+        def app(environ, start_response):
+            seen["env"] = dict(environ)
+            start_response("200 OK", [("Content-Length", "0")])
+            return []
+
+        raw = f"{case['method']} {case['target']} {case['version']}\r\n" + "".join(f"{k}: {v}\r\n" for k, v in case["headers"]) + "\r\n"
+        out, h = g.run_in_memory(raw.encode("latin-1"), app, want_handler=True)
+        if len(memo) > 5000:
+            memo.clear()
+        memo[key] = (seen.get("env"), h)
+        return memo[key]
+
+    def real(self, case):
+        from werkzeug.serving import DechunkedInput
+
+        env, h = self._observe(case)
+        if env is None:
+            return "NOT-CALLED"
+        hdrs = [(k, v) for k, v in env.items() if k.startswith("HTTP_") or k in ("CONTENT_TYPE", "CONTENT_LENGTH")]
+        term = "wsgi.input_terminated" in env
+        if term != isinstance(env["wsgi.input"], DechunkedInput):
+            return "INCONSISTENT-INPUT"
+        if env["REQUEST_URI"] != env["RAW_URI"]:
+            return "INCONSISTENT-URI"
+        return "|".join([hs(env["REQUEST_METHOD"]), hs(env["PATH_INFO"]), hs(env["QUERY_STRING"]), hs(env["SERVER_PROTOCOL"]), hs(env["REQUEST_URI"]), b01(term),
+                         ",".join(hs(k) + ":" + hs(v) for k, v in hdrs) or "[]"])
+
+    def model_line(self, case):
+        env, h = self._observe(case)
+        if env is None or getattr(h, "headers", None) is None:
+            return None
+        return line("env.make", hs(h.command), hs(h.path), hs(h.request_version), ",".join(hs(k) + ":" + hs(v) for k, v in h.headers.items()) or "[]")
+
+    def oracle(self, case, real_out):
+        env, h = self._observe(case)
+        if env is None:
+            return None  # http.server refused the request line itself (outside the model)
+        if real_out.startswith("INCONSISTENT"):
+            return "wsgi.input_terminated and the DechunkedInput wrapper / REQUEST_URI and RAW_URI disagree"
+        target = case["target"]
+        if not target.startswith("/") and "://" not in target:
+            return None  # asterisk- and authority-form: no path semantics claimed
+        m = re.match(r"[A-Za-z][A-Za-z0-9+.-]*://([^/?#]*)", target)
+        rest = target[m.end() :] if m else target
+        rest = rest.split("#", 1)[0]
+        path, _, query = rest.partition("?")
+        want = pct_decode(path)
+        try:
+            want.decode("utf-8")
+            got = env["PATH_INFO"].encode("latin-1")
+            if got != want:
+                return f"PATH_INFO {got!r} != percent-decoded path {want!r}"
+        except UnicodeDecodeError:
+            pass  # not percent-encoded UTF-8: outside the property's quantifier
+        if env["QUERY_STRING"] != query:
+            return f"QUERY_STRING {env['QUERY_STRING']!r} != {query!r}"
+        if env["REQUEST_METHOD"] != case["method"] or env["SERVER_PROTOCOL"] != case["version"]:
+            return "method / protocol not delivered"
+        te = [v for k, v in case["headers"] if k.lower() == "transfer-encoding"]
+        if len(te) == 1 and te[0].strip().lower() == "chunked" and "wsgi.input_terminated" not in env:
+            return "a chunked request was not given a terminated, de-chunking input stream"
+        return None
+
+    def finding_key(self, case, what):
+        if what.startswith("PATH_INFO") and case["target"].startswith("//"):
+            return "F19b"
+        return None
+
+    def nontrivial(self, case, real_out):
+        return "%" in case["target"] or "?" in case["target"]
+
+    def bucket(self, case, real_out):
+        t = case["target"]
+        form = "abs" if "://" in t else ("dslash" if t.startswith("//") else ("origin" if t.startswith("/") else "other"))
+        return form + ("/chunked" if real_out.split("|")[-2:-1] == ["1"] else "")
+
+
+class HttpServerPathStream(Stream):
+    """the one step of http.server that the model documents: handler.path for a request target"""
+
+    name = "hspath"
+    corpus = [{"target": t} for t in ["/", "//a", "///a//b", "/a//b", "//", "http://h//p", "*", "/a?//b", "//?x"]]
+
+    def cases(self, rng, tier):
+        n = 0
+        while tier != "quick" or n < 400:
+            n += 1
+            yield {"target": gen_target(rng)}
+
+    def real(self, case):
+        g = gen_mod()
+
+        def app(environ, start_response):
+            start_response("200 OK", [("Content-Length", "0")])
+            return []
+
+        out, h = g.run_in_memory(f"GET {case['target']} HTTP/1.1\r\n\r\n".encode("latin-1"), app, want_handler=True)
+        return hs(h.path)
+
+    def model_line(self, case):
+        return line("env.hspath", hs(case["target"]))
+
+    def bucket(self, case, real_out):
+        return "dslash" if case["target"].startswith("//") else "other"
+
+
 CHECK = Check(
     prop="C19",
     gen=["Framing"],
     modules=["WzVerif.Props.C19"],
-    streams=[ChunkLenStream(), DechunkStream(), EncodeStream(), ServerStream(), EnvironStream()],
+    streams=[ChunkLenStream(), DechunkStream(), EncodeStream(), ServerStream(), EnvironStream(), MakeEnvironStream(), HttpServerPathStream()],
     assumptions=[
         "partial: http.server's request-line / header parsing, sockets, selectors and timing are outside the model; they are only exercised by stream server",
         "rfile is a blocking buffered reader: readline() returns up to and including LF (or everything), read(n) returns n bytes unless the stream ends (modelled as a byte list)",
         "Python int(s, 16) on the stripped latin-1 size line is hand-modelled (sign, 0x prefix, single underscores, surrounding whitespace) and validated by stream chunklen",
         "io.BufferedReader / RawIOBase.readall are treated as arbitrary callers of DechunkedInput.readinto (the theorems hold for every sequence of positive read sizes); the stream replays the calls they issue",
         "chunk extensions and trailers are outside the property's quantifier (the code rejects both with OSError)",
-        "make_environ: the header folding is modelled (input = http.server's parsed header list); request-line splitting, urlsplit, percent-decoding of the path and the latin-1 dance are not modelled - they are checked by the property oracle of stream server only",
+        "make_environ is modelled from http.server's parse result (command, path, request_version, headers.items()); urllib.parse.urlsplit / unquote are hand-modelled for targets of printable ASCII without brackets in the authority (outside that domain the model answers nothing); bytes.decode(errors='replace') is the shared Util.Py model; the splitting of the request line and of header lines by http.server stays outside, except for the documented collapse of a leading '//' (httpServerPath, validated by stream hspath)",
+        "the response writer is modelled as a state machine over write() calls; the values of the Server and Date headers added by http.server's send_response are opaque inputs; response_wire_exact assumes status and header lines without CR and header names without ':' (neither werkzeug's writer nor http.server validates them)",
         "known finding F19b: an origin-form target starting with '//' reaches the application with one leading slash because CPython >= 3.12 http.server collapses it before werkzeug runs; no Lean witness (request-line parsing is outside the model)",
         "the handler's protocol_version (set by the server) decides chunked responses; the request line's HTTP version is not consulted (table column, see framing_table_matches_model) - a chunked response can be sent to an HTTP/1.0 client of an HTTP/1.1 server",
     ],
@@ -722,7 +894,7 @@ CHECK = Check(
 )
 
 MANIFEST = {
-    "level_text": "Machine-checked Lean 4 theorems about an executable model of DechunkedInput (read_chunk_len with Python's int(s,16), readinto as a state machine), a chunk encoder and the response framing decision: decoding any encoded chunk list under every sequence of positive read sizes yields exactly the payload then EOF; malformed framing raises OSError and delivers nothing but received payload bytes; the chunked-response decision decided over a table obtained on every run by exhaustive evaluation of the real handler (status 100-599 x method x Content-Length x protocol); the response writer's chunked body read back through the de-chunker is the application's output; make_environ's header folding (underscore names ignored, repeats comma-joined in order). Partial: request parsing by http.server, sockets and timing are only exercised by an in-process socket-pair stream.",
+    "level_text": "Machine-checked Lean 4 theorems about an executable model of DechunkedInput (read_chunk_len with Python's int(s,16), readinto as a state machine), a chunk encoder and the response framing decision: decoding any encoded chunk list under every sequence of positive read sizes yields exactly the payload then EOF; malformed framing raises OSError and delivers nothing but received payload bytes; the chunked-response decision decided over a table obtained on every run by exhaustive evaluation of the real handler (status 100-599 x method x Content-Length x protocol); the response writer's chunked body read back through the de-chunker is the application's output; make_environ from http.server's parse result: PATH_INFO is the percent-decoded path for every percent-encoding of every UTF-8 text (origin- and absolute-form), the query verbatim, HTTP_HOST fallback, header folding, chunked => terminated de-chunking input; the response writer as a state machine: head exactly once before the first body byte for every sequence of write() calls / pieces, and parsing the wire returns the status line, headers and body produced. Partial: request parsing by http.server, sockets and timing are only exercised by an in-process socket-pair stream.",
     "level_note": "partial - Trusted: Lean kernel; extract.py; the harness; CPython http.server / socket / io. rfile modelled as a byte list.",
     "technique": "Lean 4 proof (induction over chunk lists and read schedules; decide +kernel over a regenerated decision table) + model/code correspondence",
     "design_ref": "DESIGN.md section 4, C19",
